@@ -2,7 +2,8 @@
 import numpy as np
 from harness import wavecheck as wk, waveoracle as wo, wavesim_corr as wc
 
-THEOREMS = ['C04_emit_is_sum', 'C04_shift_equivariant', 'C04_scale_equivariant', 'C04_mono_polarity_free', 'C04_sta_window']
+THEOREMS = ['C04_emit_is_sum', 'C04_shift_equivariant', 'C04_scale_equivariant', 'C04_mono_polarity_free', 'C04_sta_window',
+            'C04_circuit_shift', 'C04_circuit_scale', 'C04_circuit_shift_inputs', 'C04_circuit_scale_inputs', 'C04_circuit_mono']
 
 
 def finite_mask(m):
@@ -98,7 +99,7 @@ def gate_stress(ck, n):
 def run(ck):
     if THEOREMS:
         ck.prove('C04', THEOREMS)
-    fails, mism = wk.campaign(ck, ck.scale(60, 1500), oracle, gen_kw={'extra_prob': 0.6}, coq_lanes=1, coq_every=2)
+    fails, mism = wk.campaign(ck, ck.scale(60, 1500), oracle, gen_kw={'extra_prob': 0.6}, coq_lanes=1, coq_every=2, line_level=True)
     ck.rule('random circuits x integer delay tables x capacities x multi-transition input waveforms on the integer (dyadic) grid; '
             'oracle: independent static timing analysis over the annotated netlist, reruns shifted by +16/-5 and scaled by 4 and 1/2, '
             'strict monotonicity for polarity-independent delay tables')
